@@ -261,6 +261,23 @@ theorem register_wf (g : G) (f i p pi : Nat) (hw : Wf g) (hf : isFuture g f = tr
     obtain ⟨a, b, c, d, _⟩ := hfacts e he
     exact ⟨⟨_, a, rfl⟩, b, c, d⟩
 
+/-- publishing to a placeholder other than the publisher itself is the registration -/
+theorem publish_future (g : G) (p pi : Nat) (s : Sub) (hf : isFuture g s.node = true) (hne : s.node ≠ p) :
+    publish g p pi s = register g s.node s.port.index p pi := by
+  unfold publish
+  simp [hf, hne]
+
+/-- a placeholder publishing to itself is refused (`Future node subscribing` at the latest) -/
+theorem publish_self_future (g : G) (p pi : Nat) (s : Sub) (hf : isFuture g s.node = true) (heq : s.node = p) :
+    ∃ e, publish g p pi s = (g, .err e) := by
+  unfold publish
+  simp only [heq, ne_eq, not_true_eq_false, and_false, ↓reduceIte]
+  cases hsub : subscription g s with
+  | some e => exact ⟨e, rfl⟩
+  | none =>
+    have := (subscription_none g s hsub).2.2.2
+    rw [hf] at this; cases this
+
 /-- `Worker.train` on a well-formed state: an error with the state untouched (also when the label publish
 fails after the train publish went through), or both subscriptions published -/
 theorem train_cases (g : G) (n tp ti lp li : Nat) (hw : Wf g) :
